@@ -242,8 +242,8 @@ pub fn generate(run_seed: u64) -> Scenario {
         default_opts: config.is_default_options(),
         free_parse_ok: !has_style_rules(&config),
     }];
-    if wl.chance(1, 3) {
-        let vdoc = if wl.chance(3, 4) {
+    if wl.chance(2, 5) {
+        let vdoc = if wl.chance(1, 2) {
             let target = match wl.weighted(&[20, 50, 30]) {
                 0 => wl.urange(1, 64),
                 1 => wl.urange(65, 1500),
@@ -257,7 +257,29 @@ pub fn generate(run_seed: u64) -> Scenario {
         } else {
             None
         };
-        let vcfg = if vdoc.is_none() || wl.chance(1, 2) {
+        let vcfg = if vdoc.is_none() && wl.chance(2, 3) {
+            // the same document under a configuration that differs in exactly
+            // one option: what a cache keyed by too little cannot tell apart
+            let mut c2 = config.clone();
+            let other = |rng: &mut Rng, cur: Option<usize>, pool: &[usize]| -> Option<usize> {
+                let choices: Vec<usize> = pool.iter().copied().filter(|&k| Some(k) != cur).collect();
+                Some(rng.pick(&choices))
+            };
+            match wl.below(12) {
+                0 | 1 => c2.min_wrap_width = other(&mut wl, c2.min_wrap_width, &[1, 2, 3, 5, 10, 40]),
+                2 => c2.max_wrap_width = other(&mut wl, c2.max_wrap_width, &[1, 2, 5, 10, 20, 40, 80]),
+                3 => c2.allow_width_overflow = !c2.allow_width_overflow,
+                4 => c2.pad_block_width = !c2.pad_block_width,
+                5 => c2.raw_mode = Some(!c2.raw_mode.unwrap_or(false)),
+                6 => c2.no_table_borders = !c2.no_table_borders,
+                7 => c2.no_link_wrapping = !c2.no_link_wrapping,
+                8 => c2.link_footnotes = Some(!c2.link_footnotes.unwrap_or(matches!(c2.decorator, Deco::Plain))),
+                9 => c2.unicode_strikeout = Some(!c2.unicode_strikeout.unwrap_or(true)),
+                10 => c2.do_decorate = !c2.do_decorate,
+                _ => c2.use_doc_css = !c2.use_doc_css,
+            }
+            Some(c2)
+        } else if vdoc.is_none() || wl.chance(1, 2) {
             let mut c2 = gen_config(&mut wl, &cg);
             c2.decorator = config.decorator.clone();
             Some(c2)
@@ -467,6 +489,7 @@ pub fn generate(run_seed: u64) -> Scenario {
         }
     };
 
+    let has_variants = !variants.is_empty();
     Scenario {
         property: "C10".into(),
         class: class_name.into(),
@@ -481,6 +504,9 @@ pub fn generate(run_seed: u64) -> Scenario {
         // one scenario in six is executed twice: the two executions must agree
         // op by op (hash-map keys, addresses and thread ids differ between them)
         repeat_check: run_seed % 6 == 0,
+        // one run in sixteen (one in three of those with a second document or
+        // configuration) is judged against references from a fresh process
+        fresh_reference: if has_variants { run_seed % 3 == 1 } else { run_seed % 16 == 1 },
     }
 }
 
@@ -523,6 +549,30 @@ pub fn check(scen: &Scenario, res: &RunResult) -> Verdict {
     let docs: Vec<Vec<u8>> = (0..nvar).map(|v| scen.variant_doc(v).materialise()).collect();
     let specs: Vec<ConfigSpec> = (0..nvar).map(|v| scen.variant_config(v)).collect();
     let mut refs: HashMap<(usize, usize, usize), (Outcome, Outcome)> = HashMap::new();
+    if scen.fresh_reference {
+        // the same keys the loop below will ask for, computed by a pristine process
+        let mut keys: Vec<(usize, usize, usize)> = Vec::new();
+        for r in &res.records {
+            let (Some(limit), Some(w)) = (r.limit, r.width) else { continue };
+            if r.reader_errored || matches!(r.outcome, Outcome::Skipped | Outcome::Unit) {
+                continue;
+            }
+            let var = (r.variant as usize).min(nvar - 1);
+            if r.free_tree && has_style_rules(&specs[var]) {
+                continue;
+            }
+            if !keys.contains(&(var, limit, w)) {
+                keys.push((var, limit, w));
+            }
+        }
+        if !keys.is_empty() {
+            if let Some(v) = crate::driver::fresh_references(scen, &keys) {
+                for (k, r) in keys.into_iter().zip(v) {
+                    refs.insert(k, r);
+                }
+            }
+        }
+    }
     let mut compared = 0u64;
     for r in &res.records {
         let (Some(limit), Some(w)) = (r.limit, r.width) else {
